@@ -512,6 +512,12 @@ func c05kSequence(t *testing.T, r *vRand, i int, lostFile string) (string, map[s
 	}
 	// ---- collections ----
 	ncoll := 1 + r.Intn(4)
+	// in half of the sequences the collections form a run of one modified_at value longer than a page, followed by
+	// a newer collection (the scanner's exact-timestamp mode and its way back out)
+	tied := r.Chance(1, 2)
+	if tied {
+		ncoll = 3 + r.Intn(3)
+	}
 	var colls []c05kColl
 	sim := &c06Sim{table: map[int]int{}, failAt: -1, t: t, manifest: map[int]string{}, extra: map[int]map[string]interface{}{}}
 	for u := 1; u <= ncoll; u++ {
@@ -543,6 +549,12 @@ func c05kSequence(t *testing.T, r *vRand, i int, lostFile string) (string, map[s
 		}
 		mt += " 0:0:f\n"
 		sim.table[u] = 1 + u/2
+		if tied {
+			sim.table[u] = 1
+			if u == ncoll {
+				sim.table[u] = 2
+			}
+		}
 		sim.manifest[u] = mt
 		ex := map[string]interface{}{}
 		if c.repl != nil {
@@ -647,6 +659,9 @@ func c05kSequence(t *testing.T, r *vRand, i int, lostFile string) (string, map[s
 	cluster := &arvados.Cluster{}
 	cluster.Collections.BalanceTimeout = arvados.Duration(time.Hour) // no verdict depends on it
 	cluster.Collections.BalanceCollectionBatch = 1 + r.Intn(4)
+	if tied {
+		cluster.Collections.BalanceCollectionBatch = 1 + r.Intn(2)
+	}
 	cluster.Collections.BalanceCollectionBuffers = 2
 	cluster.Collections.BlobMissingReport = lostFile
 	newServer := func() *Server {
@@ -657,6 +672,9 @@ func c05kSequence(t *testing.T, r *vRand, i int, lostFile string) (string, map[s
 	var runTerms []string
 	var runDescs []map[string]interface{}
 	tags := []string{"stratum:" + stratum, fmt.Sprintf("commit=%v/%v", cp, ct), fmt.Sprintf("runs=%d", len(runs))}
+	if tied {
+		tags = append(tags, "collections-tied-beyond-a-page")
+	}
 	staleExec, complete, anyTrash := 0, 0, false
 	for k, run := range runs {
 		if run.restart {
